@@ -224,6 +224,35 @@ func runNumbers(o *hx.Opts, res *hx.Result, r *hx.Rand) {
 		w.add(fmt.Sprintf("KNum %s %s %s %s", bigZ(d.M), hx.Z(int64(d.E)), hx.Str(txt.Native()), optDec(bd)),
 			map[string]any{"kind": "number", "decimal": d.String()}, map[string]any{"text": txt.Native(), "back": fmt.Sprint(bd)})
 
+		// "=" with a text operand: the text is compared as written
+		if i%3 == 0 {
+			var s2 string
+			switch gr.Intn(4) {
+			case 0:
+				s2 = txt.Native()
+			case 1:
+				s2 = mutateNumText(gr, txt.Native())
+			case 2:
+				if strings.Contains(txt.Native(), ".") {
+					s2 = txt.Native() + "0"
+				} else {
+					s2 = txt.Native() + ".0"
+				}
+			default:
+				o2 := genDecimal(gr)
+				t2, _ := types.ToXText(env, types.NewXNumber(decimal.NewFromBigInt(o2.M, int32(o2.E))))
+				s2 = t2.Native()
+			}
+			res.OracleChecks++
+			opb, isBool := operators.Equal(env, x, types.NewXText(s2)).(*types.XBoolean)
+			if !isBool || opb.Native() != (txt.Native() == s2) {
+				res.Fail("equal-vs-rendering:number-text", d.String()+" = \""+s2+"\"", fmt.Sprintf("Equal=%v, rendering %q", opb, txt.Native()))
+			} else {
+				w.add(fmt.Sprintf("KNumTextEq %s %s %s %s", bigZ(d.M), hx.Z(int64(d.E)), hx.Str(s2), hx.Bool(opb.Native())),
+					map[string]any{"kind": "equal-number-text", "a": d.String(), "text": s2}, map[string]any{"equal": opb.Native()})
+			}
+		}
+
 		// "=": against the renderings and against numeric equality
 		if i%2 == 0 {
 			var b dnum
